@@ -23,7 +23,8 @@ if go test -vet=off -count=1 -timeout 300s -run "^$run" . >/tmp/confirm4_$id.mut
 rm -f $wt/zz_seed_demo_test.go
 ok=no
 for i in 1 2 3; do
-  if go test -vet=off -count=1 -timeout 25m ./... >/tmp/confirm4_$id.suite.log 2>&1; then ok=yes; break; fi
+  # a private network namespace: concurrent suite runs otherwise collide on the fixed 127.0.0.x:7946 addresses
+  if unshare -rn bash -c 'ip link set lo up; go test -vet=off -count=1 -timeout 25m ./...' >/tmp/confirm4_$id.suite.log 2>&1; then ok=yes; break; fi
 done
 echo "SUITE_PASSES_WITH_PATCH=$ok" >> $res
 grep -E "^(--- FAIL|FAIL)" /tmp/confirm4_$id.suite.log | head -5 >> $res
